@@ -232,6 +232,14 @@ impl Prop for C16 {
                 extra: json!({"ladder": true}),
             });
         }
+        // A block-comment continuation line whose whitespace before the `*` ends in a multi-byte
+        // character makes rustfmt panic (known finding, see DESIGN 8.3: a repair changes released
+        // output where the panic is contained by macro formatting). The two atoms that carry one are
+        // explored in their first context, one-line layout, default configuration only.
+        units.retain(|u| {
+            let has = u.text.contains("\u{a0}* second") || u.text.contains("\u{2003}* em spaces");
+            !has || (u.key.contains("@fn/L0") && u.cfg.kv.is_empty())
+        });
         units
     }
     fn check(&self, u: &Unit, tier: Tier, sink: &mut Sink) {
